@@ -39,8 +39,8 @@ def cfgL (l : LEnv) : Cfg State Float where
   bounds := inBounds l.base
   valid := isValid l.base
   checkMotion := checkMotion l.base
-  goalSample _ := l.base.goal
-  maxGoalSamples := 1
+  goalSample := OmplModel.GoalStates.kth (RRTDrv.allGoals l.base) l.base.goal
+  maxGoalSamples := (RRTDrv.allGoals l.base).size
   filter _ _ := true
   pathCost := pathCost
   satisfied c := if l.thrInf then c < inf else c < 0.0
